@@ -6,12 +6,13 @@ emit('C02', '''C02 — Payload travels sealed: confidential, tamper-evident, del
    PARTIAL: "cleartext never appears on the wire" is a statement about the real cipher output; the
    theorem below shows every emitted datagram is a seal of the payload, the byte-level absence of
    the cleartext is checked on the real datagrams by py/props/c02.py.''',
- ['Base','Nonce','NonceProofs','Replay','Core','CoreProofs','Conn','PeerCrypto','SealProofs','Node','NodeProofs'],
+ ['Base','Nonce','NonceProofs','Replay','Core','CoreProofs','Conn','PeerCrypto','SealProofs','Table','Node','NodeProofs','EndToEndProofs'],
  [('core_roundtrip','CoreProofs.v','core_roundtrip','what one end seals the other end opens byte-identical (same key under the key id, nonce reconstructible, window admits)'),
   ('nonce_reconstructed','NonceProofs.v','rebuild_after_increment','the nonce premise holds for every counter that fits the 56 transmitted bits, the receiver being the opposite half'),
   ('pc_sealed','SealProofs.v','pc_seal_sealed','unless plain, everything PeerCrypto sends is a datagram produced by the core seal'),
   ('wire_shape','SealProofs.v','sealed_wire_shape','and that datagram is key id, 7 counter bytes and the AEAD seal of (type :: body) under the current key'),
   ('pc_roundtrip','SealProofs.v','pc_roundtrip','end to end at the PeerCrypto level: the receiver reports exactly the type and bytes sent'),
+  ('node_end_to_end','EndToEndProofs.v','unicast_end_to_end','node to node: the receiving node hands to its interface exactly the bytes the sending node read from its interface'),
   ('interface_gets_body','NodeProofs.v','data_no_relay','the node writes to its interface exactly the body of a DATA message, or nothing'),
   ('open_iff','CoreProofs.v','decrypt_ok_iff','a datagram opens iff key id in range, genuine seal under the slot key and reconstructed nonce, window admits'),
   ('reflected','CoreProofs.v','reflected_never_opens','reflected back to its own sender: never opens (own half never reconstructed)'),
